@@ -37,7 +37,7 @@ import (
 	texttemplate "text/template"
 	"time"
 
-	"database/sql"
+	_ "database/sql"
 
 	"github.com/Cloud-Foundations/Dominator/lib/log/debuglogger"
 	"github.com/Cloud-Foundations/keymaster/keymasterd/admincache"
@@ -302,6 +302,7 @@ type vfWorld struct {
 	lastPanic interface{}
 	lastPanicStack string
 	pool    *x509.CertPool
+	onResp  func(*vfResp) // observer of every response (side-effect oracles)
 }
 
 var vfScratchRoot = func() string {
@@ -474,13 +475,13 @@ func (w *vfWorld) openDBs() {
 	st := w.state
 	var err error
 	st.dbType = "sqlite"
-	st.db, err = sql.Open(vfSQLDriver, filepath.Join(w.dir, profileDBFilename))
+	// through the repository's own opening code (DSN, table creation); verifgen
+	// points its sql.Open at the fault-injecting wrapper of the sqlite3 driver
+	st.db, err = initFileDBSQLite(filepath.Join(w.dir, profileDBFilename), nil)
 	vfMust(err)
 	st.db.SetMaxIdleConns(0)
-	vfMust(initializeSQLitetables(st.db))
-	st.cacheDB, err = sql.Open(vfSQLDriver, filepath.Join(w.dir, cachedDBFilename))
+	st.cacheDB, err = initFileDBSQLite(filepath.Join(w.dir, cachedDBFilename), nil)
 	vfMust(err)
-	vfMust(initializeSQLitetables(st.cacheDB))
 	st.remoteDBQueryTimeout = 2 * time.Second
 	st.dbDone = make(chan struct{}, 1)
 }
@@ -604,6 +605,9 @@ func (w *vfWorld) do(h http.Handler, req *http.Request) *vfResp {
 		if res.LogUser == "-" {
 			res.LogUser = "" // the access log's placeholder for "nobody was admitted"
 		}
+	}
+	if w.onResp != nil {
+		w.onResp(res)
 	}
 	return res
 }
